@@ -477,10 +477,10 @@ Proof.
   destruct (is_space c); [|exact H]. apply IH. exact (close_call_free_tail c y H).
 Qed.
 
-Lemma subcall_plain x : plain_text x = true -> subcall_match x = None.
+Lemma subcall_core_plain x : plain_text x = true -> subcall_core x = None.
 Proof.
   unfold plain_text. intros H. apply andb_true_iff in H as [Hc Hi]. apply negb_true_iff in Hc.
-  unfold subcall_match. rewrite (call_kw_none x Hc).
+  unfold subcall_core. rewrite (call_kw_none x Hc).
   destruct (starts_ci (s "if") x) eqn:Ei; [|reflexivity].
   cbn [negb orb] in Hi.
   fold (lstrip_s (skipn 2 x)).
@@ -488,6 +488,18 @@ Proof.
   destruct (lstrip_s (skipn 2 x)) as [|c y]; [reflexivity|].
   destruct (Ascii.eqb c lpar); [|reflexivity].
   now rewrite (last_close_call_free y None (close_call_free_tail c y Hf)).
+Qed.
+
+Lemma subcall_plain x : plain_text (strip_label x) = true -> subcall_match x = None.
+Proof. intros H. unfold subcall_match. now apply subcall_core_plain. Qed.
+
+(* a statement label in front *)
+Lemma strip_label_lab l y : label_ok l = true -> hd_not is_space y -> strip_label (l ++ space :: y) = y.
+Proof.
+  unfold label_ok. intros H Hy. apply andb_true_iff in H as [Hn Hd]. unfold strip_label.
+  rewrite (span_app is_digit l (space :: y) Hd) by reflexivity.
+  destruct l as [|c l]; [discriminate|]. cbn [is_nil span]. change (is_space space) with true. cbn iota.
+  rewrite (span_nil is_space y Hy). reflexivity.
 Qed.
 
 Lemma norm_kw kw sp : forallb is_word kw = true -> norm_chain (kw ++ kw_sp sp ++ par2) = [lower kw].
@@ -691,7 +703,8 @@ Qed.
 
 Lemma subcall_call d : wf_d d = true -> subcall_match (s "call" ++ space :: sh_d d) = Some (sh_d d).
 Proof.
-  intros Hwf. unfold subcall_match.
+  intros Hwf. unfold subcall_match. change (strip_label (s "call" ++ space :: sh_d d)) with (s "call" ++ space :: sh_d d).
+  unfold subcall_core.
   assert (E : starts_ci (s "if") (s "call" ++ space :: sh_d d) = false) by reflexivity. rewrite E.
   now apply call_kw_d.
 Qed.
@@ -705,6 +718,9 @@ Lemma subcall_ifcall sp d : wf_d d = true ->
   subcall_match (s "if" ++ kw_sp sp ++ par2 ++ space :: s "call" ++ space :: sh_d d) = Some (sh_d d).
 Proof.
   intros Hwf. unfold subcall_match.
+  change (strip_label (s "if" ++ kw_sp sp ++ par2 ++ space :: s "call" ++ space :: sh_d d))
+    with (s "if" ++ kw_sp sp ++ par2 ++ space :: s "call" ++ space :: sh_d d).
+  unfold subcall_core.
   assert (E : starts_ci (s "if") (s "if" ++ kw_sp sp ++ par2 ++ space :: s "call" ++ space :: sh_d d) = true) by reflexivity.
   rewrite E.
   assert (E2 : snd (span is_space (skipn 2 (s "if" ++ kw_sp sp ++ par2 ++ space :: s "call" ++ space :: sh_d d)))
